@@ -69,7 +69,7 @@ def collect_edges(modules, tier, cap, ops=None, depth2=0, select=None, nshards=4
 
 
 def decide_edges(rep: Report, edges, viol_classes, stepbound, workdir, sig_fn=None, matrix=None,
-                 want_replay=True, timeout=1500):
+                 want_replay=True, timeout=1500, coverage=False):
     """Run all accepted edges' units through TLC; register violations whose class is in
     viol_classes.  Returns per-edge verdict summaries."""
     units, owners = [], []
@@ -80,8 +80,13 @@ def decide_edges(rep: Report, edges, viol_classes, stepbound, workdir, sig_fn=No
                 by_dedupe[e["dedupe"]] = len(units)
                 units.append(e["unit"])
                 owners.append(e)
-    res = run_units(units, workdir, stepbound=stepbound, timeout=timeout)
+    res = run_units(units, workdir, stepbound=stepbound, timeout=timeout, coverage=coverage)
     rep.add_cov(states=res.states, transitions=res.generated)
+    if res.action_coverage:
+        rep.cov["tlc_action_coverage_first_batch"] = dict(sorted(res.action_coverage.items()))
+        never = [a for a in ("Start", "AssignS", "WCfgS", "PassS", "AllocS", "FreeS", "WinS", "ForS", "IfS", "EndBlock", "CallS",
+                             "RetS", "Finish") if res.action_coverage.get(a, 0) == 0]
+        rep.cov["tlc_actions_never_taken_in_first_batch"] = never
     # per unit summary
     summ = {}
     n_inputs = n_conclusive = 0
